@@ -44,7 +44,7 @@ ASSUMPTIONS = [
     '"killed by signal s" presupposes that s kills: the child restores SIG_DFL (and unblocks s) first',
     'under forkserver any non-zero int is accepted for a signal death (255 observed)',
     '/proc/<pid>/stat state Z or a vanished pid is trusted as proof that the child has ended',
-    'early return of join(t) with the child alive is recorded as an anomaly, not a violation (the statement only bounds join from above)',
+    'a short early return of join(t) on a live child is an anomaly; a long timed join that returns with neither exit status nor timeout while the child has ended counts as a "successful join" that left an active child (violation)',
     'thread interleavings of concurrent pollers are sampled, not enumerated',
 ]
 FLOORS = {
@@ -156,6 +156,10 @@ def plan(tier, seed):
         for i in range(0, len(cases), per):
             specs.append({'mode': 'matrix', 'method': method, 'api': apis[k % 3],
                           'storm': (k % 4 == 1), 'seed': seed * 100000 + k,
+                          # parent and child on one CPU: the parent tends to run in the
+                          # window between the child closing its descriptors and
+                          # becoming reapable
+                          'pin': (k % 3 == 2),
                           'cases': cases[i:i + per]})
             k += 1
     for method in METHODS:
@@ -328,6 +332,13 @@ class Env:
         # load that import takes seconds and would be billed to the first join(t)
         import billiard.connection  # noqa
         self.spec, self.rec = spec, rec
+        if spec.get('pin') and hasattr(os, 'sched_setaffinity'):
+            try:
+                cpus = sorted(os.sched_getaffinity(0))
+                os.sched_setaffinity(0, {cpus[spec['seed'] % len(cpus)]})
+                rec.count('pinned_specs')
+            except OSError:
+                pass
         self.method, self.api = spec['method'], spec.get('api', 'ctx')
         self.seed = spec['seed']
         self.H = H
@@ -807,8 +818,13 @@ class Case:
             if self.peek_rc() is not None:
                 self.after_successful_join('join(%r)' % T)
                 rec.count('timed_join_ended_by_exit')
+            elif el < T - 2.0:
+                # neither the exit (no status) nor the timeout: a join that
+                # "succeeded" without the child being reaped - it is still an
+                # active child with exitcode None
+                self.v('timed_join_returned_without_exit_or_timeout', 'around_exit',
+                       timeout=T, elapsed=round(el, 3), child_state=proc_state(self.pid))
             else:
-                # neither the exit nor the timeout: legal but odd
                 rec.anomaly('join_returned_early', timeout=T, elapsed=round(el, 3),
                             method=self.method, child_state=proc_state(self.pid))
         elif pat == 'spin':
